@@ -59,10 +59,10 @@ def run(ctx):
             ctx.violation('an item skipped / repeated a stage, got a wrong input, or pipeline() returned early: %s -> %s' % (line[:200], o[:400]),
                           {'case': line, 'output': o, 'cmd': 'echo "<case>" | build/harness/h_pipeline-*'})
         elif v == 3:
-            ctx.violation('pipeline() still running after %d steps on a schedule on which the model has returned (stall): %s -> %s' % (c['budget'], line[:200], o[-300:]),
+            ctx.violation('pipeline() still running after %d steps on a schedule on which the model has returned (stall): %s -> %s' % (c['budget'], line, o[-300:]),
                           {'case': line, 'output': o, 'cmd': 'echo "<case>" | build/harness/h_pipeline-*'})
         elif v == 1:
-            ctx.broken.append('correspondence L(C27): real trace differs from the model on ' + line[:200] + ' -> ' + o[:200])
+            ctx.broken.append('correspondence L(C27): real trace differs from the model on ' + line + ' -> ' + o[:300])
     ctx.cov['verdict_histogram'] = {'agree': hist.get(0, 0), 'differ_property_holds': hist.get(1, 0), 'property_fails': hist.get(2, 0), 'stalls_where_model_returns': hist.get(3, 0)}
     ctx.cov['traces_validated_against_impl'] += hist.get(0, 0)
     ctx.cov['status_histogram'] = {k: sum(1 for _, p, _ in kept if p['status'] == v) for k, v in (('done', 0), ('deadlock', 1), ('budget', 2))}
